@@ -116,6 +116,8 @@ def _let(pat, scr):
     """the condition `let PAT = SCR`; `let Some(..) = xs.first() / xs.split_first()` (binders only) is `!xs.is_empty()`"""
     if scr[0] == "call" and scr[1] in SLICE_HEADS and len(scr[2]) == 1 and re.fullmatch(r"(v1|Option)::Some\([$_(),]*\)", pat):
         return ("op", "Not", [("call", "slice::is_empty", [scr[2][0]])])
+    if scr[0] == "call" and scr[1] == "Option::map" and len(scr[2]) == 2 and re.fullmatch(r"(v1|Option)::Some\([$_]\)", pat):
+        return _let(pat, scr[2][0])         # opt.map(f) is Some exactly when opt is
     return ("iflet", pat, scr)
 
 
@@ -127,12 +129,20 @@ def peel_ty(t):
     return t
 
 
+def _not(c):
+    return c[2][0] if c[0] == "op" and c[1] == "Not" and len(c[2]) == 1 else ("op", "Not", [c])
+
+
 def _mk_if(c, t, e):
     """if c {t} else {e} with the boolean identities applied"""
     if t == ("lit", True) and e == ("lit", False):
         return c
     if e == ("lit", False):
         return ("op", "&&", [c, t])
+    if t == ("def", "v1::None") and e[0] == "call" and e[1] == "Some" and len(e[2]) == 1:
+        return ("call", "then", [_not(c), e[2][0]])
+    if e == ("def", "v1::None") and t[0] == "call" and t[1] == "Some" and len(t[2]) == 1:
+        return ("call", "then", [c, t[2][0]])
     if t[0] == "call" and e[0] == "call" and t[1] == e[1] and len(t[2]) == len(e[2]) and t[1] not in ("then", "ok_or"):
         # if c { f(x, a) } else { f(x, b) }  ==  f(x, if c { a } else { b })
         diff = [i for i, (a, b) in enumerate(zip(t[2], e[2])) if a != b]
@@ -365,6 +375,35 @@ class Norm:
         for c in children(n):
             self._index(c, depth, guards)
 
+    ELEMENTWISE = ("Iterator::find", "Iterator::map", "Iterator::filter", "Iterator::any", "Iterator::all", "Iterator::position", "Iterator::for_each",
+                   "Iterator::filter_map", "Iterator::find_map", "Iterator::flat_map", "Iterator::take_while", "Iterator::skip_while", "Iterator::inspect")
+
+    def elemize(self, t, node):
+        """closure parameters of the element-wise iterator adaptors enclosing `node`, rendered as `elem(<receiver>)`:
+        the same element as in the for-loop form"""
+        def path_to(root, target):
+            if root is target:
+                return [root]
+            for c in children(root):
+                if isinstance(c, dict):
+                    p = path_to(c, target)
+                    if p is not None:
+                        return [root] + p
+            return None
+        path = path_to(self.body["body"], node) or []
+        by_depth = {}
+        for x in path:
+            if x.get("k") == "Closure" and x.get("def") in self.closure_src:
+                adaptor, recv = self.closure_src[x["def"]]
+                if adaptor in self.ELEMENTWISE:
+                    by_depth[self.closure_depth.get(x["def"])] = recv
+
+        def sub(n):
+            if n[0] == "cparam" and n[2] == 0 and n[1] in by_depth:
+                return _elem_of(self._t(by_depth[n[1]]))[1]
+            return None
+        return rewrite(t, sub)
+
     def guards_term(self, guards):
         out = []
         for g in guards:
@@ -544,7 +583,7 @@ class Norm:
                     if id(g[1]) in loops or _has_loop_exit(g[2]):
                         return None
                     loops.add(id(g[1]))
-                    inner = ("for", self._t(g[1]), inner)
+                    inner = _mk_for(self._t(g[1]), inner)
                 elif g[0] == "if":
                     c = self._t(g[1])
                     inner = ("if", c if g[2] else ("op", "Not", [c]), inner, ("lit", "()"))
@@ -566,6 +605,10 @@ class Norm:
                 return self._iflet(p1, scr, b1, b2)
             if p1 in catch and p2 not in catch:
                 return self._iflet(p2, scr, b2, b1)
+        if len(arms) >= 2 and all(g is None for _p, g, _b in arms) and arms[0][2][0] == "call" and arms[0][2][1] in ("Some", "Ok") and len(arms[0][2][2]) == 1 \
+                and all(b[0] == "call" and b[1] == arms[0][2][1] and len(b[2]) == 1 for _p, _g, b in arms):
+            # match x { A => Some(a), B => Some(b) }  ==  Some(match x { A => a, B => b })
+            return ("call", arms[0][2][1], [self._canon_match(scr, [(p, g, b[2][0]) for p, g, b in arms])])
         if all(g is None for _p, g, _b in arms) and any(b == ("lit", False) for _p, _g, b in arms) \
                 and all(b == ("lit", False) for p, _g, b in arms if p in ("_", "$")):
             # boolean match: the disjunction of its non-false arms
@@ -742,6 +785,8 @@ class Norm:
                     t = t[3][acc]
                 elif t[0] == "call" and t[1] == v and acc.isdigit() and int(acc) < len(t[2]):
                     t = t[2][int(acc)]
+                elif t[0] == "call" and t[1] == "Option::map" and v in ("v1::Some", "Option::Some") and acc == "0" and len(t[2]) == 2 and t[2][1][0] == "closure":
+                    t = _proj_some(t)
                 elif t[0] == "call" and t[1] in ("slice::split_first",) and len(t[2]) == 1 and v in ("v1::Some", "Option::Some") and acc == "0":
                     t = ("tup", [("index", t[2][0], ("lit", "0")), ("index", t[2][0], _RANGE_FROM_1)])     # xs.split_first() = (xs[0], xs[1..])
                 elif t[0] == "call" and t[1] in ("slice::first", "Vec::first") and len(t[2]) == 1 and v in ("v1::Some", "Option::Some") and acc == "0":
@@ -871,6 +916,17 @@ class Norm:
                     part = ("for", it, ("if", body[2][0], body[2][1], ("lit", "()")))
                 if part is not None:
                     return ("call", "vec+", [part])
+            if name == "Result::map" and len(args) == 1 and args[0][0] == "closure" and args[0][2] == 1:
+                # r.map(|v| X)  ==  match r { Ok(v) => Ok(X), Err(e) => Err(e) }
+                d = args[0][1]
+                okv = ("proj", recv, "v1::Ok", "0")
+                X = rewrite(args[0][3], lambda n: okv if n[0] == "cparam" and n[1] == d and n[2] == 0 else None)
+                return self._canon_match(recv, [("v1::Ok($)", None, ("call", "Ok", [X])), ("v1::Err($)", None, ("call", "Err", [("proj", recv, "v1::Err", "0")]))])
+            if name == "Iterator::filter_map" and len(args) == 1 and args[0][0] == "closure" and args[0][2] == 1 and args[0][3][0] == "call" and args[0][3][1] == "then" \
+                    and len(args[0][3][2]) == 2:
+                # it.filter_map(|x| c.then(|| v))  ==  it.filter(|x| c).map(|x| v)
+                d = args[0][1]
+                return ("call", "Iterator::map", [("call", "Iterator::filter", [recv, ("closure", d, 1, args[0][3][2][0])]), ("closure", d, 1, args[0][3][2][1])])
             if name == "Iterator::for_each" and len(args) == 1 and args[0][0] == "closure" and args[0][2] == 1:
                 # it.for_each(|x| f(x))  ==  for x in it { f(x) }
                 d = args[0][1]
@@ -880,7 +936,7 @@ class Norm:
                     if n[0] == "cparam" and n[1] == d and n[2] == 0:
                         return el
                     return None
-                return ("for", recv, rewrite(args[0][3], sub3))
+                return _mk_for(recv, rewrite(args[0][3], sub3))
             if name == "bool::then" and len(args) == 1 and args[0][0] == "closure" and args[0][2] == 0:
                 return ("call", "then", [recv, args[0][3]])      # c.then(|| x)  ==  if c {Some(x)} else {None}
             if name == "bool::then_some" and len(args) == 1:
@@ -943,6 +999,11 @@ class Norm:
                             tail = ("opaque", "diverge")
             if tail == ("lit", "()") and e.get("ty") == "!":
                 tail = ("opaque", "diverge")
+            if effs and tail[0] == "if" and _is_unit(tail[3]):
+                both = _found_flag_loops(effs + [tail])
+                if len(both) < len(effs) + 1:
+                    effs, tail = both, ("lit", "()")
+            effs = _found_flag_loops(effs)
             if not early and len(effs) == 1 and effs[0][0] == "for" and e is self._fn_block:
                 lp = effs[0]
                 if lp[2][0] == "early" and len(lp[2][1]) == 1 and lp[2][1][0][1][0] == "ret" and _is_unit(lp[2][2]):
@@ -959,6 +1020,17 @@ class Norm:
                 for c, v in early:
                     for c2 in _split_or(c):
                         early2.append((c2, v))
+                # if set.contains(x) { return }  set.insert(x); ..   ==   if !set.insert(x) { return } ..
+                lc = early2[-1][0]
+                first = tail[1][0] if tail[0] == "seq" and tail[1] else tail if tail[0] == "call" else None
+                if lc[0] == "call" and lc[1] in ("HashSet::contains", "BTreeSet::contains") and first is not None and first[0] == "call" \
+                        and first[1] == lc[1].replace("contains", "insert") and first[2] == lc[2]:
+                    early2[-1] = (("op", "Not", [first]), early2[-1][1])
+                    if tail[0] == "seq":
+                        rest = tail[1][1:]
+                        tail = ("seq", rest, tail[2]) if len(rest) > 1 or (rest and tail[2] != ("lit", "()")) else rest[0] if rest else tail[2]
+                    else:
+                        tail = ("lit", "()")
                 return ("early", early2, tail)
             return tail
         if k == "Match":
@@ -968,7 +1040,7 @@ class Norm:
                 return sc if sc[0] == "try" else ("try", sc)
             fl = as_for_loop(e)
             if fl is not None:
-                return ("for", self._t(fl[1]), self._t(fl[2]))
+                return _mk_for(self._t(fl[1]), self._t(fl[2]))
             if src.startswith("AwaitDesugar"):
                 return ("opaque", "await")
             scr = self._t(e["scrut"])
@@ -1205,6 +1277,64 @@ def pat_repr(p):
     if k == "PGuard":
         return pat_repr(p["p"]) + " if .."
     return str(k)
+
+
+def _found_flag_loops(effs):
+    """let mut found = false; for x in it { if c { A; found = true; break } } if !found { B }   ==   search(it, c, A, B)"""
+    out = []
+    i = 0
+    while i < len(effs):
+        a = effs[i]
+        b = effs[i + 1] if i + 1 < len(effs) else None
+        done = False
+        if b is not None and a[0] == "for" and a[2][0] == "if" and _is_unit(a[2][3]) and b[0] == "if" and _is_unit(b[3]) \
+                and b[1][0] == "op" and b[1][1] == "Not" and b[1][2][0][0] == "mut":
+            it, c, hit = a[1], a[2][1], a[2][2]
+            m = b[1][2][0]
+            acts = None
+            if hit[0] == "seq" and hit[2][0] == "break":
+                acts = hit[1]
+            elif hit[0] == "break":
+                acts = []
+            if acts is not None and m[2] == ("lit", False) and len(m[3]) == 1 and m[3][0][0] == "assign" and m[3][0][1] == "" and m[3][0][2] == ("lit", True) \
+                    and tuple(m[3][0][3][-2:]) == ("for(" + _show(it) + ")", _show(c)):
+                A = ("lit", "()") if not acts else acts[0] if len(acts) == 1 else ("seq", acts[:-1], acts[-1])
+                out.append(("call", "search", [it, c, A, b[2]]))
+                i += 2
+                done = True
+        if not done:
+            out.append(a)
+            i += 1
+    return out
+
+
+def _proj_some(O):
+    """payload of `O` known to be Some: `opt.map(|v| X)` carries X of opt's payload"""
+    if O[0] == "call" and O[1] == "Option::map" and len(O[2]) == 2 and O[2][1][0] == "closure" and O[2][1][2] == 1:
+        d = O[2][1][1]
+        inner = _proj_some(O[2][0])
+        return rewrite(O[2][1][3], lambda n: inner if n[0] == "cparam" and n[1] == d and n[2] == 0 else None)
+    return ("proj", O, "v1::Some", "0")
+
+
+def _mk_for(it, body):
+    """for x in ADAPTOR(it) { body }: map / filter / filter_map adaptors fused into the loop body"""
+    if it[0] == "call" and it[1] in ("Iterator::map", "Iterator::filter", "Iterator::filter_map") and len(it[2]) == 2 \
+            and it[2][1][0] == "closure" and it[2][1][2] == 1:
+        base, clo = it[2]
+        d = clo[1]
+        old = ("elem", it)
+        el = ("elem", base)
+        f = rewrite(clo[3], lambda n: el if n[0] == "cparam" and n[1] == d and n[2] == 0 else None)
+        if it[1] == "Iterator::map":
+            return _mk_for(base, rewrite(body, lambda n: f if n == old else None))
+        if it[1] == "Iterator::filter":
+            return _mk_for(base, ("if", f, rewrite(body, lambda n: el if n == old else None), ("lit", "()")))
+        if f[0] == "call" and f[1] == "then" and len(f[2]) == 2:
+            return _mk_for(base, ("if", f[2][0], rewrite(body, lambda n: f[2][1] if n == old else None), ("lit", "()")))
+        payload = _proj_some(f)
+        return _mk_for(base, ("if", _let("v1::Some($)", f), rewrite(body, lambda n: payload if n == old else None), ("lit", "()")))
+    return ("for", it, body)
 
 
 def _elem_of(it):
